@@ -45,12 +45,27 @@ def Kind.mtype : Kind → MType
   | .sym => .symlink
   | .special => .other
 
+/-- The numeric header fields the view hands on, and the size of the archive
+    segment: `h.Size`, `i.sz`, `h.Mode`, `h.ModTime` (seconds, nanoseconds). -/
+structure Meta where
+  hsize : Nat := 0
+  seg : Nat := 0
+  mode : Nat := 0
+  mtimeS : Int := 0
+  mtimeN : Nat := 0
+deriving DecidableEq, Repr
+
 structure Member where
   kind : Kind
   name : Bytes
   link : Bytes
   data : Bytes
+  md : Meta := {}
 deriving Repr
+
+/-- `i.h.Mode &= 0o7777` in the loop of New (1a3c8472): the file-type bits of
+    the mode field are dropped, the type of a member is its typeflag. -/
+def Member.imd (m : Member) : Meta := { m.md with mode := m.md.mode % 4096 }
 
 structure Inode where
   kind : Kind
@@ -58,6 +73,7 @@ structure Inode where
   link : Bytes
   children : Option (List Nat)
   data : Option Bytes
+  md : Meta := {}
 deriving Repr
 
 inductive Err where
@@ -87,8 +103,12 @@ def FS.get? (fs : FS) (k : Bytes) : Option Nat := alGet fs.lookup k
 /-- `f.lookup[k]` without the `ok`: the zero value when absent. -/
 def FS.getD (fs : FS) (k : Bytes) : Nat := (alGet fs.lookup k).getD 0
 
+/-- `newDir`: mode `fs.ModeDir | 0o644` (the high bit is no permission bit),
+    size 0, the zero `time.Time` (its Unix time), no segment. -/
+def newDirMeta : Meta := { hsize := 0, seg := 0, mode := 420, mtimeS := -62135596800, mtimeN := 0 }
+
 def newDir (n : Bytes) : Inode :=
-  { kind := .dir, name := n, link := [], children := some [], data := none }
+  { kind := .dir, name := n, link := [], children := some [], data := none, md := newDirMeta }
 
 def emptyInode : Inode := { kind := .reg, name := dotP, link := [], children := none, data := none }
 
@@ -263,15 +283,15 @@ def prepMember (fs : FS) (m : Member) : Option Inode :=
   match m.kind with
   | .dir =>
     if (fs.get? n).isSome then none
-    else some { kind := .dir, name := n, link := m.link, children := some [], data := some [] }
-  | .sym => some { kind := .sym, name := n, link := normLink .sym n m.link, children := none, data := some [] }
-  | .link => some { kind := .link, name := n, link := normLink .link n m.link, children := none, data := some [] }
-  | .reg => some { kind := .reg, name := n, link := m.link, children := none, data := some m.data }
-  | .special => some { kind := .special, name := n, link := m.link, children := none, data := some [] }
+    else some { kind := .dir, name := n, link := m.link, children := some [], data := some [], md := m.imd }
+  | .sym => some { kind := .sym, name := n, link := normLink .sym n m.link, children := none, data := some [], md := m.imd }
+  | .link => some { kind := .link, name := n, link := normLink .link n m.link, children := none, data := some [], md := m.imd }
+  | .reg => some { kind := .reg, name := n, link := m.link, children := none, data := some m.data, md := m.imd }
+  | .special => some { kind := .special, name := n, link := m.link, children := none, data := some [], md := m.imd }
 
 /-- The inode of a directory member. -/
-def dirInode (n link : Bytes) : Inode :=
-  { kind := .dir, name := n, link := link, children := some [], data := some [] }
+def dirInode (n link : Bytes) (mt : Meta) : Inode :=
+  { kind := .dir, name := n, link := link, children := some [], data := some [], md := mt }
 
 /-- The directory case of the loop of New when the name is taken: a hard link
     whose target has not been seen gives way to the directory (the inode is
@@ -280,7 +300,7 @@ def dirOverLink (fs : FS) (m : Member) : FS :=
   match m.kind, fs.get? (normPath m.name) with
   | .dir, some idx =>
     if (fs.ino idx).kind = .link ∧ (fs.get? (fs.ino idx).link).isNone then
-      { fs with inodes := fs.inodes.set idx (dirInode (normPath m.name) m.link) }
+      { fs with inodes := fs.inodes.set idx (dirInode (normPath m.name) m.link m.imd) }
     else fs
   | _, _ => fs
 
@@ -331,12 +351,27 @@ structure Info where
   name : Bytes
   mtype : MType
   size : Nat
+  mode : Nat
+  mtimeS : Int
+  mtimeN : Nat
 deriving DecidableEq, Repr
 
-/-- `h.FileInfo()`: name, type bits, size. -/
+/-- `h.FileInfo()`: name, type bits, `Size()` = `h.Size`, the permission,
+    setuid, setgid and sticky bits of `Mode()` (as the tar bits 0o7777),
+    `ModTime()`. -/
 def FS.info (fs : FS) (i : Nat) : Info :=
   let n := fs.ino i
-  { name := baseOf n.name, mtype := n.kind.mtype, size := (n.data.getD []).length }
+  { name := baseOf n.name, mtype := n.kind.mtype, size := n.md.hsize, mode := n.md.mode % 4096,
+    mtimeS := n.md.mtimeS, mtimeN := n.md.mtimeN }
+
+/-- `checkSize` (ce813f23) and then what a tar.Reader over the inode's segment
+    yields: a member whose header size exceeds its segment is refused. -/
+def readSeg (n : Inode) : Except Err Bytes :=
+  if n.md.hsize > n.md.seg then .error .invalid
+  else
+    match n.data with
+    | some d => .ok d
+    | none => .error .other
 
 inductive OpenRes where
   | file (info : Info) (content : Bytes)
@@ -364,16 +399,16 @@ def openAux (fs : FS) : Nat → Bytes → OpenRes
       let n := fs.ino i
       match n.kind with
       | .reg =>
-        match n.data with
-        | some d => .file (fs.info i) d
-        | none => .err .other
+        match readSeg n with
+        | .ok d => .file (fs.info i) d
+        | .error e => .err e
       | .link =>
         match linkChain fs fs.inodes.length (getInode fs n.link) with
         | .error e => .err e
         | .ok t =>
-          match (fs.ino t).data with
-          | some d => .file (fs.info i) d
-          | none => .err .other
+          match readSeg (fs.ino t) with
+          | .ok d => .file (fs.info i) d
+          | .error e => .err e
       | .dir => .dir (fs.info i) (fs.entries i)
       | .sym => openAux fs k n.link
       | .special => .err .exist
